@@ -505,22 +505,31 @@ def run(ctx: Ctx):
         (ctx.ok if vd == "ok" else (lambda *a, **kw: None))("R18.c", rc.key(k_), "see ::table (the whole function equals the vetted value)", rc.where())
 
     doc_keys = documented_keys(ctx)
-    expected = {
-        "ode2py": {"": ["verbose", "delta", "stiff_states", "scheme"], "python": ["format", "backend"]},
-        "ode2c": {"": ["verbose", "delta", "stiff_states", "scheme"], "c": ["format", "to"]},
-        "cellml2ode": {"": ["verbose"]},
-    }
+    expected = EXPECTED_KEYS
     for section, keys in doc_keys.items():
         for k in keys:
             holders = [c for c, secs in expected.items() if k in secs.get(section, [])]
             ctx.check(bool(holders), "R18.c", f"docs/config.md::{section or 'tool.gotranx'}::{k}", "documented key is handled by a command", f"docs/config.md documents `{k}` under [{'tool.gotranx' + ('.' + section if section else '')}] but no command is expected to read it (checker table out of date)", "docs/config.md")
+    check_config_keys(ctx, "R18.c")
+
+
+EXPECTED_KEYS = {
+    "ode2py": {"": ["verbose", "delta", "stiff_states", "scheme"], "python": ["format", "backend"]},
+    "ode2c": {"": ["verbose", "delta", "stiff_states", "scheme"], "c": ["format", "to"]},
+    "cellml2ode": {"": ["verbose"]},
+}
+
+
+def check_config_keys(ctx: Ctx, rule: str, only_keys: set | None = None):
+    """every documented configuration key is read from the right table with the command-line value as default and
+    lands in the dispatched main's parameter of that name"""
     from sa import av as _av
 
-    for f in dispatching:
-        if f.name not in expected:
+    disp = dispatched_calls(ctx)
+    for cname, (f, calls, _log, _err) in disp.items():
+        if f.name not in EXPECTED_KEYS or not calls:
             continue
-        vals = [v for v, _m, _n in dispatched.get(f.name, [])]
-        mains = [m for _v, m, _n in dispatched.get(f.name, [])]
+        vals = [v for v, _m, _n in calls]
         gets = [g for v in vals for g in _av.find_all(v, "mcall") if g[2] == "get" and g[3] and g[3][0][0] == "c"]
 
         def is_root(t):
@@ -535,17 +544,19 @@ def run(ctx: Ctx):
                 return t[3][0][1]
             return None
 
-        for section, keys in expected[f.name].items():
+        for section, keys in EXPECTED_KEYS[f.name].items():
             for k in keys:
+                if only_keys is not None and k not in only_keys:
+                    continue
                 key = f.key(f"config::{section + '.' if section else ''}{k}")
                 hits = [g for g in gets if g[3][0][1] == k and table_of(g) == section]
                 if not hits:
                     if any(_av.has_unk(v) for v in vals):
-                        ctx.undecided("R18.c", key, f"command `{f.name}`: what reaches the dispatched main is not understood", f.where())
+                        ctx.undecided(rule, key, f"command `{f.name}`: what reaches the dispatched main is not understood", f.where())
                     elif section and not any(table_of(g) == section for g in gets):
-                        ctx.fail("R18.c", key, f"command `{f.name}` does not read the [{section}] table of the configuration", f.where())
+                        ctx.fail(rule, key, f"command `{f.name}` does not read the [{section}] table of the configuration", f.where())
                     else:
-                        ctx.fail("R18.c", key, f"command `{f.name}` never reads the documented configuration key `{k}`", f.where())
+                        ctx.fail(rule, key, f"command `{f.name}` never reads the documented configuration key `{k}`", f.where())
                     continue
                 g = hits[0]
                 dflt = g[3][1] if len(g[3]) > 1 else None
@@ -555,8 +566,14 @@ def run(ctx: Ctx):
                     kw = dict(v[3] if v[0] == "call" else v[4])
                     landed += [q for q, x in kw.items() if _has_term(x, g)]
                 okq = any(q == k or k in MAP.get(q, set()) for q in landed)
+                if dflt is not None and dflt != ("sym", k) and dflt[0] == "if" and any(_mentions_param(dflt[1], p_) for p_ in f.params if p_ != k):
+                    other = [p_ for p_ in f.params if p_ != k and _mentions_param(dflt[1], p_)]
+                    ctx.fail(rule, key, f"command `{f.name}`: the command-line value of `{k}` is replaced depending on `{', '.join(other)}` *before* the configuration is merged (`{_av.show(dflt)[:90]}`): what the configuration file says about {', '.join(other)} is not known at that point, so a value given on the command line can be thrown away although it is needed", f.where())
+                    continue
                 okk = dflt is not None and _mentions_param(dflt, k) and okq
-                ctx.check(okk, "R18.c", key, f"{k} = <table>.get('{k}', {k})", f"command `{f.name}`: `{_av.show(g)[:90]}` does not hand key `{k}` to the main's `{k}` with the command-line value as default (it reaches {sorted(set(landed)) or 'nothing'})", f.where())
+                ctx.check(okk, rule, key, f"{k} = <table>.get('{k}', {k})", f"command `{f.name}`: `{_av.show(g)[:90]}` does not hand key `{k}` to the main's `{k}` with the command-line value as default (it reaches {sorted(set(landed)) or 'nothing'})", f.where())
+
+
 
 
 def _has_term(v, t) -> bool:
